@@ -380,6 +380,8 @@ prop('C17', [
     handles.r_parser,
     raw.r_tempdir,
     models.r_pickle_corrupt,
+    models.r_configure,
+    models.r_json_reordering,
 ],
     'on every path of every function of dd.bdd, dd.autoref and dd._copy '
     'that writes manager state, no user-facing rejection (explicit raise '
